@@ -284,7 +284,9 @@ func (e *FieldExpression) unwrapReference(ref *dtpb.Reference) *dtpb.String {
 	rv := ref.ProtoReflect()
 	switch ref := ref.GetReference().(type) {
 	case *dtpb.Reference_Uri:
-		return fhir.String(ref.Uri.GetValue())
+		// The reference string is an element of the input (it may carry an id
+		// and extensions); return it rather than a copy of its value.
+		return ref.Uri
 	case *dtpb.Reference_Fragment:
 		return fhir.String("#" + ref.Fragment.GetValue())
 	default:
